@@ -37,6 +37,10 @@ ACTIONS = {
 FN = {"contrib_keys": ("Reaction.rate", "explicit"), "contrib_default": ("Reaction.rate", "default"),
       "rates_keys": ("ReactionSystem.rates", "explicit"), "rates_default": ("ReactionSystem.rates", "default"),
       "rates_again": ("ReactionSystem.rates", "again"), "frame": ("ReactionSystem.rates", "frame"),
+      "rates_backend_np": ("ReactionSystem.rates", "backend-numpy"),
+      "rates_backend_sympy": ("ReactionSystem.rates", "backend-sympy"),
+      "vec": ("ReactionSystem.rates", "arrays"), "vec_frame": ("ReactionSystem.rates", "arrays-frame"),
+      "vec_distinct": ("ReactionSystem.rates", "arrays-distinct"),
       "rvals": ("law_of_mass_action_rates", "-"), "dcdt": ("dCdt_list", "-"), "build": ("ReactionSystem", "-"),
       "ovall_contrib": ("Reaction.rate", "ratex"), "ovmixed_contrib": ("Reaction.rate", "ratex-mixed"),
       "ovall_rates": ("ReactionSystem.rates", "ratexs"), "ovmixed_rates": ("ReactionSystem.rates", "ratexs-mixed"),
@@ -53,6 +57,8 @@ def _expected(case, field, mode):
     if mode in ("int", "float", "frac"):
         table = {"contrib_keys": exp["contrib"], "contrib_default": exp["contrib"],
                  "rates_keys": exp["fed"], "rates_default": exp["fed"], "rates_again": exp["fed"],
+                 "rates_backend_np": exp["fed"], "rates_backend_sympy": exp["fed"],
+                 "vec": exp.get("vec"), "vec_frame": exp["frame"], "vec_distinct": exp.get("distinct"),
                  "frame": exp["frame"], "rvals": exp["rvals"], "dcdt": exp["rates"],
                  "ovall_contrib": exp["ovall"]["contrib"], "ovall_rates": exp["ovall"]["fed"],
                  "ovmixed_contrib": exp["ovmixed"]["contrib"], "ovmixed_rates": exp["ovmixed"]["fed"],
@@ -131,6 +137,16 @@ def _replay_case(case):
                 if extras:
                     first = False
                 _compare(bad, case, obs, mode, dict(base, pform=pform, container=cont))
+    mode0 = _modes(cin)[0]
+    # the constructor's `substances` argument in its other forms (string, mappings, alias keys, sorted)
+    for sform in cin.get("sforms") or []:
+        if sform == "list" or (sform == "str" and len(cin["subst"]) < 2):
+            continue
+        obs = kc.observe_numeric(dict(cin, _sform=sform), mode0, "plain", "list", extras=True)
+        _compare(bad, case, obs, mode0, dict(base, pform="plain", container=sform))
+    # array-valued concentrations: both states of the case in one call
+    if cin.get("c2"):
+        _compare(bad, case, kc.observe_vector(cin), mode0, dict(base, pform="plain", container="ndarray-values"))
     if not cin["feed"]["on"] and not cin.get("hist"):
         mode = _modes(cin)[0]
         for sel in ("selrev", "selsub"):
